@@ -7,31 +7,41 @@ EXTENDS ConstraintInfo, TLC, Json, IOUtils
 Traces == JsonDeserialize(IOEnv.TRACE_FILE)
 VARIABLES tid, l, verdict
 
+\* values are carried in units of 1/U (the first variable may sit eps/U beside an integer)
+U == 65536
+BU(b) == IF IsInf(b) THEN b ELSE b * U
+DiffU(vu, b) == IF b >= INF THEN [inf |-> -1, v |-> 0] ELSE IF b <= -INF THEN [inf |-> 1, v |-> 0] ELSE [inf |-> 0, v |-> vu - b * U]
+ViolU(vu, lb, ub) == Max2(Max2(IF IsInf(lb) THEN 0 ELSE lb * U - vu, IF IsInf(ub) THEN 0 ELSE vu - ub * U), 0)
+ObsExtU(o, d) == IF d.inf = 0 THEN ObsEq(o, <<d.v, U>>) ELSE o.k = "inf" /\ o.n = d.inf
 GroupBad(g, vals, lb, ub, name) ==
   IF ~g.present THEN "ok"
   ELSE IF Len(g.lower) # 2 \/ Len(g.upper) # 2 \/ Len(g.viol) # 2 THEN name \o "_shape"
-  ELSE IF \E i \in 1..2 : ~ObsExt(g.lower[i], LowerDiff(vals[i], lb[i])) THEN name \o "_lower_difference"
-  ELSE IF \E i \in 1..2 : ~ObsExt(g.upper[i], UpperDiff(vals[i], ub[i])) THEN name \o "_upper_difference"
-  ELSE IF \E i \in 1..2 : ~ObsEqInt(g.viol[i], Violation(vals[i], lb[i], ub[i])) THEN name \o "_violation"
+  ELSE IF \E i \in 1..2 : ~ObsExtU(g.lower[i], DiffU(vals[i], lb[i])) THEN name \o "_lower_difference"
+  ELSE IF \E i \in 1..2 : ~ObsExtU(g.upper[i], DiffU(vals[i], ub[i])) THEN name \o "_upper_difference"
+  ELSE IF \E i \in 1..2 : ~ObsEq(g.viol[i], <<ViolU(vals[i], lb[i], ub[i]), U>>) THEN name \o "_violation"
   ELSE "ok"
 
 Check(e) ==
-  LET lin == <<2 * (e.v[1] + e.v[2]), e.v[1] - e.v[2]>>        \* rows (2, 2) and (1, -1)
-      nl  == <<e.v[1] + 1, 2 * e.v[2]>>
+  LET x1  == e.v[1] * U + e.eps      x2 == e.v[2] * U           \* the variables, in units of 1/U
+      xs  == <<x1, x2>>
+      lin == <<2 * (x1 + x2), x1 - x2>>        \* rows (2, 2) and (1, -1)
+      nl  == <<x1 + U, 2 * x2>>
       vlb == IF e.vfree THEN <<-INF, -INF>> ELSE e.lb          \* the variable bounds in force
       vub == IF e.vfree THEN <<INF, INF>> ELSE e.ub
       anyFinite == \E i \in 1..2 : ~IsInf(vlb[i]) \/ ~IsInf(vub[i])
-      maxviol == Max2(Max2(Max2(Violation(e.v[1], vlb[1], vub[1]), Violation(e.v[2], vlb[2], vub[2])),
-                           Max2(Violation(lin[1], e.lb[1], e.ub[1]), Violation(lin[2], e.lb[2], e.ub[2]))),
-                      Max2(Violation(nl[1], e.lb[1], e.ub[1]), Violation(nl[2], e.lb[2], e.ub[2])))
+      maxviol == Max2(Max2(Max2(ViolU(x1, vlb[1], vub[1]), ViolU(x2, vlb[2], vub[2])),
+                           Max2(ViolU(lin[1], e.lb[1], e.ub[1]), ViolU(lin[2], e.lb[2], e.ub[2]))),
+                      Max2(ViolU(nl[1], e.lb[1], e.ub[1]), ViolU(nl[2], e.lb[2], e.ub[2])))
+      \* the tracker's tolerance: 0 when tol = 0, else tol + 1/2
+      tolU == IF e.tol = 0 THEN 0 ELSE e.tol * U + U \div 2
   IN IF e.outcome # "ok" THEN "internal_exception"
      ELSE IF ~e.bound.present /\ anyFinite THEN "bound_differences_missing"
      ELSE IF ~e.linear.present THEN "linear_differences_missing"
      ELSE IF ~e.nonlinear.present THEN "nonlinear_differences_missing"
-     ELSE IF GroupBad(e.bound, e.v, vlb, vub, "bound") # "ok" THEN GroupBad(e.bound, e.v, vlb, vub, "bound")
+     ELSE IF GroupBad(e.bound, xs, vlb, vub, "bound") # "ok" THEN GroupBad(e.bound, xs, vlb, vub, "bound")
      ELSE IF GroupBad(e.linear, lin, e.lb, e.ub, "linear") # "ok" THEN GroupBad(e.linear, lin, e.lb, e.ub, "linear")
      ELSE IF GroupBad(e.nonlinear, nl, e.lb, e.ub, "nonlinear") # "ok" THEN GroupBad(e.nonlinear, nl, e.lb, e.ub, "nonlinear")
-     ELSE IF e.tracked /\ e.kept # (maxviol <= e.tol) THEN "feasibility_not_by_violation_within_tolerance"
+     ELSE IF e.tracked /\ e.kept # (maxviol <= tolU) THEN "feasibility_not_by_violation_within_tolerance"
      ELSE "ok"
 
 Init == tid \in 1..Len(Traces) /\ l = 1 /\ verdict = "ok"
